@@ -107,6 +107,145 @@ theorem spawn_fresh_after (s : SeedSeq) (k k' i j : ℕ) (hi : i < k) (hj : j < 
   simp at this
   omega
 
+/-! ### the generator loops -/
+
+theorem spawn_keys_eq (s : SeedSeq) (k : ℕ) :
+    (s.spawn k).1.map (·.spawnKey) = (List.range k).map (fun i => s.spawnKey ++ [s.nSpawned + i]) := by
+  simp [SeedSeq.spawn, Function.comp_def]
+
+/-- **T5d.** the keys of one spawn are pairwise distinct, as a list -/
+theorem spawn_keys_nodup (s : SeedSeq) (k : ℕ) : ((s.spawn k).1.map (·.spawnKey)).Nodup := by
+  rw [spawn_keys_eq]
+  apply List.Nodup.map _ List.nodup_range
+  intro i j h
+  have := List.append_cancel_left h
+  simpa using this
+
+/-- **T3a.** the constant generator yields exactly the requested number of initial conditions … -/
+theorem constGen_length {β : Type} (ic : β) (s : SeedSeq) (k : ℕ) : (constGen ic s k).1.length = k := by
+  simp [constGen, spawn_length]
+
+/-- **T3b.** … all of them identical … -/
+theorem constGen_identical {β : Type} (ic : β) (s : SeedSeq) (k : ℕ) (y : β × SeedSeq) (hy : y ∈ (constGen ic s k).1) :
+    y.1 = ic := by
+  simp only [constGen, List.mem_map] at hy
+  obtain ⟨c, _, rfl⟩ := hy
+  rfl
+
+/-- **T3c.** … each with its own seed sequence -/
+theorem constGen_seeds_nodup {β : Type} (ic : β) (s : SeedSeq) (k : ℕ) :
+    ((constGen ic s k).1.map (·.2.spawnKey)).Nodup := by
+  have : (constGen ic s k).1.map (·.2.spawnKey) = (s.spawn k).1.map (·.spawnKey) := by
+    simp [constGen, Function.comp_def]
+  rw [this]; exact spawn_keys_nodup s k
+
+/-- **T4c.** the normal generator never yields more than requested -/
+theorem normalGen_length_le (pos mom sigma : Fin n → ℝ) (draws : List ((Fin n → ℝ) × (Fin n → ℝ))) (s : SeedSeq) (k : ℕ) :
+    (normalGen pos mom sigma draws s k).1.length ≤ k := by
+  unfold normalGen
+  refine le_trans (List.length_filterMap_le _ _) ?_
+  simp [List.length_zip, spawn_length]
+
+/-- **T4d.** every yielded sample is the sample of one of the draws, and none of its momentum components is negative -/
+theorem normalGen_nonneg (pos mom sigma : Fin n → ℝ) (draws : List ((Fin n → ℝ) × (Fin n → ℝ))) (s : SeedSeq) (k : ℕ)
+    (y : ((Fin n → ℝ) × (Fin n → ℝ)) × SeedSeq) (hy : y ∈ (normalGen pos mom sigma draws s k).1) :
+    (∃ d ∈ draws, y.1 = normalSample pos mom sigma d.1 d.2) ∧ ∀ i, 0 ≤ y.1.2 i := by
+  simp only [normalGen, List.mem_filterMap] at hy
+  obtain ⟨dc, hdc, h⟩ := hy
+  by_cases hk : kskip (normalSample pos mom sigma dc.1.1 dc.1.2).2 = true
+  · simp [hk] at h
+  · simp only [hk] at h
+    have hk' : kskip (normalSample pos mom sigma dc.1.1 dc.1.2).2 = false := by simpa using hk
+    simp only [Bool.false_eq_true, if_false, Option.some.injEq] at h
+    subst h
+    refine ⟨⟨dc.1, ?_, rfl⟩, fun i => not_kskip_nonneg _ hk' i⟩
+    exact List.mem_of_mem_take (List.of_mem_zip hdc).1
+
+/-- the seeds carried by the yielded samples are a sublist of the spawned children -/
+theorem normalGen_seeds_sublist (pos mom sigma : Fin n → ℝ) (draws : List ((Fin n → ℝ) × (Fin n → ℝ))) (s : SeedSeq) (k : ℕ) :
+    List.Sublist ((normalGen pos mom sigma draws s k).1.map (·.2)) (s.spawn k).1 := by
+  unfold normalGen
+  generalize (s.spawn k).1 = cs
+  generalize draws.take k = ds
+  induction ds generalizing cs with
+  | nil => simp
+  | cons d ds ih =>
+    cases cs with
+    | nil => simp
+    | cons c cs =>
+      simp only [List.zip_cons_cons, List.filterMap_cons]
+      by_cases hk : kskip (normalSample pos mom sigma d.1 d.2).2 = true
+      · simp only [hk, if_true]
+        exact List.Sublist.cons _ (ih cs)
+      · simp only [hk, Bool.false_eq_true, if_false, List.map_cons]
+        exact List.Sublist.cons_cons _ (ih cs)
+
+/-- **T4e.** every yielded sample carries its own distinct seed sequence (a skipped draw's seed is never handed to another sample) -/
+theorem normalGen_seeds_nodup (pos mom sigma : Fin n → ℝ) (draws : List ((Fin n → ℝ) × (Fin n → ℝ))) (s : SeedSeq) (k : ℕ) :
+    ((normalGen pos mom sigma draws s k).1.map (·.2.spawnKey)).Nodup := by
+  have h := (normalGen_seeds_sublist pos mom sigma draws s k).map (·.spawnKey)
+  rw [List.map_map] at h
+  exact (spawn_keys_nodup s k).sublist h
+
+/-- **T4f.** sample `i` does not depend on how many samples are requested: the samples for `k` requests are a prefix of
+    those for `k' ≥ k` requests (same draws, same seeds) -/
+theorem normalGen_prefix (pos mom sigma : Fin n → ℝ) (draws : List ((Fin n → ℝ) × (Fin n → ℝ))) (s : SeedSeq) (k k' : ℕ)
+    (hk : k ≤ k') :
+    (normalGen pos mom sigma draws s k).1 <+: (normalGen pos mom sigma draws s k').1 := by
+  unfold normalGen
+  apply List.IsPrefix.filterMap
+  have hs : (s.spawn k).1 = (s.spawn k').1.take k := by
+    simp only [SeedSeq.spawn]
+    rw [← List.map_take, List.take_range, min_eq_left hk]
+  have hd : draws.take k = (draws.take k').take k := by
+    rw [List.take_take, min_eq_left hk]
+  rw [hs, hd]
+  have : ((draws.take k').take k).zip ((s.spawn k').1.take k) = (((draws.take k').zip (s.spawn k').1)).take k := by
+    simp [List.zip, List.take_zipWith]
+  rw [this]
+  exact List.take_prefix _ _
+
+/-- the Boltzmann generator yields one sample per request (given enough draws) … -/
+theorem boltzmannGen_length (x m : Fin n → ℝ) (kt : ℝ) (scale : Bool) (draws : List (Fin n → ℝ)) (s : SeedSeq) (k : ℕ)
+    (hd : k ≤ draws.length) : (boltzmannGen x m kt scale draws s k).1.length = k := by
+  simp [boltzmannGen, List.length_zip, spawn_length, hd]
+
+/-- **T1'.** … and every sample it yields with scaling on has kinetic energy exactly `kT/2` per degree of freedom -/
+theorem boltzmannGen_ke (x m : Fin n → ℝ) (kt : ℝ) (hkt : 0 ≤ kt) (draws : List (Fin n → ℝ)) (s : SeedSeq) (k : ℕ)
+    (hke : ∀ z ∈ draws, 0 < avgKE (boltzmannRaw m z kt) m)
+    (y : ((Fin n → ℝ) × (Fin n → ℝ)) × SeedSeq) (hy : y ∈ (boltzmannGen x m kt true draws s k).1) :
+    y.1.1 = x ∧ avgKE y.1.2 m = kt / 2 := by
+  simp only [boltzmannGen, List.mem_map] at hy
+  obtain ⟨dc, hdc, rfl⟩ := hy
+  refine ⟨rfl, ?_⟩
+  simp only [if_true]
+  exact boltzmann_scaled_ke m dc.1 kt hkt (hke _ (List.mem_of_mem_take (List.of_mem_zip hdc).1))
+
+theorem boltzmannGen_seeds_nodup (x m : Fin n → ℝ) (kt : ℝ) (scale : Bool) (draws : List (Fin n → ℝ)) (s : SeedSeq) (k : ℕ) :
+    ((boltzmannGen x m kt scale draws s k).1.map (·.2.spawnKey)).Nodup := by
+  have h : List.Sublist ((boltzmannGen x m kt scale draws s k).1.map (·.2)) (s.spawn k).1 := by
+    simp only [boltzmannGen, List.map_map]
+    have : ((fun y : ((Fin n → ℝ) × (Fin n → ℝ)) × SeedSeq => y.2) ∘ fun dc : (Fin n → ℝ) × SeedSeq =>
+        ((x, if scale = true then boltzmannScaled m dc.1 kt else boltzmannRaw m dc.1 kt), dc.2)) = Prod.snd := by
+      funext dc; rfl
+    rw [this, ← List.unzip_snd]
+    generalize (s.spawn k).1 = cs
+    generalize draws.take k = ds
+    induction ds generalizing cs with
+    | nil => simp
+    | cons d ds ih =>
+      cases cs with
+      | nil => simp
+      | cons c cs => simpa using List.Sublist.cons_cons c (by simpa using ih cs)
+  have h' := h.map (·.spawnKey)
+  rw [List.map_map] at h'
+  exact (spawn_keys_nodup s k).sublist h'
+
+/-- non-vacuity: two requests, the second draw has a negative momentum and is skipped; the one sample yielded carries child 0 -/
+example : ((normalGen (fun _ : Fin 1 => (0 : ℝ)) (fun _ => 1) (fun _ => 1)
+    [(fun _ => 0, fun _ => 0), (fun _ => 0, fun _ => -2)] ⟨7, [], 0⟩ 2).1.map (·.2.spawnKey)) = [[0]] := by
+  simp [normalGen, normalSample, kskip, SeedSeq.spawn, List.range_succ]
+
 /-- non-vacuity of `boltzmann_scaled_ke`: one particle, unit draw -/
 example : 0 < avgKE (boltzmannRaw (fun _ : Fin 1 => (2 : ℝ)) (fun _ => 1) 3) (fun _ => 2) := by
   simp only [avgKE_eq, boltzmannRaw]
